@@ -23,6 +23,7 @@ type Obligation struct {
 	Text   string // clause text (contract source) or description
 	Cover  bool   // vacuity guard: must be SAT
 	Extras []string // extra assertions local to this obligation
+	KnownFinding bool
 
 	// results
 	Verdict string // unsat | sat | unknown | timeout | error
